@@ -1,4 +1,35 @@
-(* placeholder until the theorems are in place *)
-From Lhasa Require Import Base Header.
-Example collapse_example2 : collapse_path [47; 46; 46; 47; 46; 47; 47; 97; 47]%N = [47; 97; 47]%N.
+(* Properties_C11.v -- C11: returned paths never contain '.', '..' or empty
+   components; names contain no '/'.  Statements only; proofs in P_Path.v.
+   The specification (slash_components, path_ok, name_ok) is at the top of P_Path.v. *)
+From Lhasa Require Import Base InputStream Header P_Path.
+Local Open Scope N_scope.
+
+(* For EVERY input stream state (any bytes, any of the four header levels, any
+   extended headers, any OS type) and any mktime: if the parser returns a header,
+   its file name contains no '/', and every '/'-terminated component of its path is
+   a real name -- not empty, not ".", not ".." -- apart from one optional leading '/'. *)
+Theorem returned_names_ok : forall mktime st h st',
+  lha_file_header_read mktime st = Ok (Some h, st') ->
+  (forall n, h_filename h = Some n -> name_ok n) /\ (forall p, h_path h = Some p -> path_ok p).
+Proof. exact P_Path.returned_names_ok. Qed.
+
+(* the normalisation itself, for every byte string *)
+Theorem collapse_path_ok : forall p, path_ok (collapse_path p).
+Proof. exact P_Path.collapse_path_ok. Qed.
+
+(* Joining path and name cannot climb: every prefix of the path's component list has
+   non-negative depth (+1 real name, -1 "..", 0 "." or empty). *)
+Theorem join_does_not_climb : forall mktime st h st' p,
+  lha_file_header_read mktime st = Ok (Some h, st') -> h_path h = Some p ->
+  (forall k : nat, (0 <= depth (firstn k (slash_components (strip_lead p) [])))%Z) /\
+  (hd_error p <> Some 47 -> forall k : nat, (0 <= depth (firstn k (slash_components p [])))%Z).
+Proof. exact P_Path.join_does_not_climb. Qed.
+
+(* non-vacuity: a stored path that climbs is normalised; the raw path is not ok *)
+Example collapse_example : collapse_path [97; 47; 46; 46; 47; 46; 46; 47; 98; 47; 46; 47; 99; 47; 47; 100; 47]%N
+                           = [98; 47; 99; 47; 100; 47]%N.
 Proof. vm_compute. reflexivity. Qed.
+
+Print Assumptions returned_names_ok.
+Print Assumptions collapse_path_ok.
+Print Assumptions join_does_not_climb.
